@@ -67,6 +67,15 @@ func (x *c10Gen) view(leo uint64) (int, int, string, string) {
 		isr = isr[min(1, len(isr)):]
 		g.Count("view:local-not-in-isr")
 	}
+	if len(isr) > 1 && g.R.Chance(50) { // the ISR list is a set: the leader need not come first
+		for i := len(isr) - 1; i > 0; i-- {
+			j := g.R.Intn(i + 1)
+			isr[i], isr[j] = isr[j], isr[i]
+		}
+		if isr[0] != fmt.Sprint(local) {
+			g.Count("view:isr-local-not-first")
+		}
+	}
 	for n := 1; n <= 3; n++ {
 		switch {
 		case n == local:
